@@ -355,6 +355,7 @@ func (g *c12Gen) prelude() {
 	g.add(fmt.Sprintf("%s wr2(o, v) { o.delta = v; %s o; }", KwFun, KwReturn))
 	g.add(fmt.Sprintf("%s mk() { %s {alpha: 1, beta: 2, gamma: 3}; }", KwFun, KwReturn))
 	g.add(fmt.Sprintf("%s mkn() { %s {alpha: 1, child: {beta: 2, gamma: 3}, arr: [{delta: 4}, 5]}; }", KwFun, KwReturn))
+	g.add(fmt.Sprintf("%s mkc() { %s {alpha: 1, child: {beta: 2, gamma: {delta: 4}}}; }", KwFun, KwReturn))
 	g.add(fmt.Sprintf("%s del(o, k) { %s(o, k); }", KwFun, FnDelete))
 	g.add(fmt.Sprintf("%s noret() { }", KwFun))
 }
@@ -586,20 +587,29 @@ func c12Program(s Src, maxOps int) (string, *C12Expect) {
 				// one literal WITH NESTED LITERALS evaluated twice (a factory called twice, or a loop
 				// body run twice) gives objects that share nothing
 				a, b := Pick(s, "var", varNames), Pick(s, "var2", varNames)
+				objectsOnly := Bool(s, "objectsonly") // nothing but object literals and constants, two levels deep
+				lit, factory := "{alpha: 1, child: {beta: 2, gamma: 3}, arr: [{delta: 4}, 5]}", "mkn()"
+				if objectsOnly {
+					lit, factory = "{alpha: 1, child: {beta: 2, gamma: {delta: 4}}}", "mkc()"
+				}
 				mkOne := func() int {
-					c := g.newObj(map[string]C12Val{"beta": {Num: 2}, "gamma": {Num: 3}})
 					d := g.newObj(map[string]C12Val{"delta": {Num: 4}})
+					if objectsOnly {
+						c := g.newObj(map[string]C12Val{"beta": {Num: 2}, "gamma": {Ref: d}})
+						return g.newObj(map[string]C12Val{"alpha": {Num: 1}, "child": {Ref: c}})
+					}
+					c := g.newObj(map[string]C12Val{"beta": {Num: 2}, "gamma": {Num: 3}})
 					return g.newObj(map[string]C12Val{"alpha": {Num: 1}, "child": {Ref: c}, "arr": {ArrRef: d, ArrNum: 5}})
 				}
 				ida, idb := mkOne(), mkOne()
 				if Bool(s, "viafactory") {
-					g.setVar(a, ida, "mkn()")
-					g.setVar(b, idb, "mkn()")
+					g.setVar(a, ida, factory)
+					g.setVar(b, idb, factory)
 				} else {
 					g.tmp++
 					t := g.tmp
 					g.add(fmt.Sprintf("%s keep%d = [];", KwVar, t))
-					g.add(fmt.Sprintf("%s (%s li%d = 0; li%d < 2; li%d = li%d + 1) { %s kt%d = (keep%d = %s(keep%d, {alpha: 1, child: {beta: 2, gamma: 3}, arr: [{delta: 4}, 5]})); }", KwFor, KwVar, t, t, t, t, KwVar, t, t, FnAppend, t))
+					g.add(fmt.Sprintf("%s (%s li%d = 0; li%d < 2; li%d = li%d + 1) { %s kt%d = (keep%d = %s(keep%d, %s)); }", KwFor, KwVar, t, t, t, t, KwVar, t, t, FnAppend, t, lit))
 					g.setVar(a, ida, fmt.Sprintf("keep%d[0]", t))
 					g.setVar(b, idb, fmt.Sprintf("keep%d[1]", t))
 				}
@@ -607,12 +617,19 @@ func c12Program(s Src, maxOps int) (string, *C12Expect) {
 				v1, v2, v3 := g.val(), g.val(), g.val()
 				g.add(fmt.Sprintf("%s.child.beta = %d;", b, v1))
 				g.heap[g.heap[g.vars[b]]["child"].Ref]["beta"] = C12Val{Num: v1}
-				g.add(fmt.Sprintf("%s.arr[0].delta = %d;", a, v2))
-				g.heap[g.heap[g.vars[a]]["arr"].ArrRef]["delta"] = C12Val{Num: v2}
-				g.add(fmt.Sprintf("%s.arr[1] = %d;", b, v3))
-				ar := g.heap[g.vars[b]]["arr"]
-				ar.ArrNum = v3
-				g.heap[g.vars[b]]["arr"] = ar
+				if objectsOnly {
+					g.add(fmt.Sprintf("%s.child.gamma.delta = %d;", a, v2))
+					g.heap[g.heap[g.heap[g.vars[a]]["child"].Ref]["gamma"].Ref]["delta"] = C12Val{Num: v2}
+					g.add(fmt.Sprintf("%s.child.gamma.alpha = %d;", b, v3))
+					g.heap[g.heap[g.heap[g.vars[b]]["child"].Ref]["gamma"].Ref]["alpha"] = C12Val{Num: v3}
+				} else {
+					g.add(fmt.Sprintf("%s.arr[0].delta = %d;", a, v2))
+					g.heap[g.heap[g.vars[a]]["arr"].ArrRef]["delta"] = C12Val{Num: v2}
+					g.add(fmt.Sprintf("%s.arr[1] = %d;", b, v3))
+					ar := g.heap[g.vars[b]]["arr"]
+					ar.ArrNum = v3
+					g.heap[g.vars[b]]["arr"] = ar
+				}
 			case "arr-elem-write":
 				// the second element of an array held in a property is replaced: no property of any object is written
 				var cands []string
